@@ -130,7 +130,7 @@ package geojson
 
 // ---------------------------------------------------------------- Search: the child-search protocol (both paths satisfy one set-based contract)
 //@ func collection.Search
-//@   props C10
+//@   props C10 C08
 //@   arith order
 //@   requires CollInv(g)
 //@   skip collection.go:39 A-RTREE: the tree path hands a forwarding literal to the external rtree.RTree.Search; its content is not modelled (TreeHolds is abstract)
@@ -768,7 +768,7 @@ package geojson
 //@ spec func indexWanted(c *collection, n int) bool { countNonEmptyUpTo(c, collN(c)) > 0 && n != 0 && countNonEmptyUpTo(c, collN(c)) >= n }
 
 //@ func collection.parseInitRectIndex
-//@   props C10 C11
+//@   props C10 C11 C08
 //@   arith order
 //@   requires g != nil && opts != nil && CollKidsInv(g) && g.prect == zeroRect() && g.tree == nil
 //@   requires Acyclic: forall j int :: (0 <= j && j < collN(g) && isCollObjK(collChild(g,j))) ==> collOf(collChild(g,j)) != g
